@@ -29,6 +29,15 @@ if os.environ.get("ROUND4"):
              "library (including helper modules the anchored code calls) as long as the effect is a genuine violation of THIS property. "
              "Your demo will be rebuilt elsewhere with `-I<root> -I<root>/include -I<root>/_b/generated/include`: never #include an absolute path, use paths "
              "relative to the repository root (e.g. \"source/ring_buffer.c\").\n\n")
+if os.environ.get("ROUND5"):
+    extra = ("In THIS round make each change hard in a different way from the earlier rounds (listed above): prefer (a) TWO cooperating edits in different "
+             "functions or files, each of which looks like a harmless clean-up on its own; (b) a change in code this property's files CALL (another module of "
+             "the library) whose effect only surfaces through this property's API; (c) a change that is correct for every input the function's own callers in "
+             "the library pass today but wrong for a legal public-API input; (d) a change visible only after a long or unusual history (many operations, growth "
+             "past several thresholds, wrap-around, reuse after clean-up / reset, alternating two APIs); (e) integer-width, signedness or promotion slips that "
+             "need values ≥ 2^31 / 2^32 / near SIZE_MAX. Avoid the functions already listed above where you can. "
+             "Your demo will be rebuilt elsewhere with `-I<root> -I<root>/include -I<root>/_b/generated/include`: never #include an absolute path, use paths "
+             "relative to the repository root; put any extra compile flags the demo needs (e.g. -DDEBUG_BUILD, -Wl,--wrap=...) on the documented compile line in the header comment.\n\n")
 prop = json.dumps({k: p[k] for k in ('id', 'title', 'statement', 'quantifier', 'why_tests_cant', 'anchors')}, indent=1)
 print(f"""You are testing how well a C library's correctness properties are guarded. The library is awslabs/aws-c-common. You have your own scratch git worktree of it at {wt} (a detached checkout of the current HEAD). Work ONLY inside {wt} (and subdirectories you create there or under {wt}_out); do not read or write /verif, /repo, /root, or other directories under /tmp — your result must be independent of any existing verification machinery. No network.
 
